@@ -16,6 +16,8 @@ FUNCS = [('modeling.py', 'contracts.py.lin_spec', '_lin._addterm'),
          ('modeling.py', 'contracts.py.function_index_spec', 'sum'),
          ('modeling.py', 'contracts.py.function_index_spec',
           '_function.__getitem__'),
+         ('modeling.py', 'contracts.py.function_index_spec',
+          '_minmax.__getitem__'),
          ('modeling.py', 'contracts.py.keytolist_spec', '_keytolist')]
 
 
@@ -158,7 +160,7 @@ def run(report, tier, seed):
         'every other operation of the expression algebra: _function '
         'arithmetic and '
         'curvature bookkeeping (_cvxterms / _ccvterms), _mul / _rmul, '
-        'indexing of _lin / _minmax / variable, max / min / abs / dot, the '
+        'indexing of _lin / variable, max / min / abs / dot, the '
         'binary (not in-place) forms, value() itself',
         'that the callers of _addterm (_lin.__add__, __iadd__, ...) pass a '
         'copy where required']
